@@ -1,4 +1,4 @@
-import Glom.Lemmas.C11d
+import Glom.Lemmas.C11k
 import Glom.Model.C11Env
 /-
   C11 — assign obeys the lens laws and fails atomically.
@@ -43,13 +43,27 @@ theorem c11_facts_wf : ∀ uc fl, WF (genEnv uc fl) = true := by
     `TType.__stars__` counts `x` / `X` over the *operator* slots `__ops__[1::2]` only (a segment
     that is merely *named* 'x' is not a wildcard — the model's `stars`); no method of `Assign` /
     `Delete` other than `__init__` stores into `self` (a spec object is an immutable term in the
-    model: re-using it cannot change its meaning). -/
+    model: re-using it — one evaluation after the other, or one in the middle of the other,
+    `assignAuxR` — cannot change its meaning); the loop of `_t_eval` over the entries a wildcard
+    produced evaluates the rest of the path once per entry, in order. -/
 theorem c11_facts_shape :
     Generated.assignGlomitCatch = (["PathAccessError"], "reraise-unless-missing") ∧
     Generated.finalOpsAllowed.lookup "Assign" = some "[.P" ∧
     Generated.applyForEachShape = "flatten layers-1 then iterate" ∧
     Generated.starsShape = "count x/X over the operator slots __ops__[1::2]" ∧
-    Generated.specSelfWrites.filter (·.1 == "Assign") = [] := by decide
+    Generated.specSelfWrites.filter (·.1 == "Assign") = [] ∧
+    Generated.starLoopShape = "rest evaluated once per entry in order; PathAccessError skips the entry" := by
+  decide
+
+/-- **Facts obligation, the value**: `arg_val` evaluates `val` with one fresh `_ArgValuator` per call,
+    whose `mode` is the function `argEval` models: exact list / dict objects through a memo keyed by
+    identity that is consulted first, filled *before* the children are evaluated (cycles) and
+    **never dropped** (a container reachable by two routes is rebuilt once — the stored value has the
+    sharing structure of the literal, `c11_copy_once`), exact tuple / set / frozenset objects rebuilt
+    per occurrence, everything else itself. -/
+theorem c11_facts_argval :
+    Generated.argValuatorShape = "memo by id, entered first, never dropped" ∧
+    Generated.argValShape = "one fresh _ArgValuator per call" := by decide
 
 /-- **Facts obligation, S-rooted destinations**: `Assign.__init__` passes its path through
     `_s_first_item`, which re-spells a first step written `S.name` / `Path(S, name)` as `S[name]` —
@@ -190,7 +204,7 @@ theorem c11_frame {env : MEnv} {h : Heap} {target : Val} {sroot : Bool} {orig : 
           exact (refAssignOp_frame hr').2 b hb
     · -- the walk stops at `stop`: the tail is built on fresh cells and attached at `stop`
       refine ⟨stop, .inr ⟨k, e, hm⟩, ?_⟩
-      obtain ⟨hp, _, _, _, _⟩ := buildTail_spec env kind v _ _ _ _ _ _ hbt
+      obtain ⟨hp, _, _, _⟩ := buildTail_spec env kind v _ _ _ _ _ _ hbt
       intro b hlt hb
       rw [(refAssignOp_frame hr').2 b hb, hp b hlt]
 
@@ -284,10 +298,11 @@ theorem c11_read_checks {env : MEnv} {h : Heap} {target : Val} {sroot : Bool} {o
     (rd : List Step) (hrd : wfStar (readSteps sroot rd) = true)
     (hns : hasStar (readSteps sroot rd) = false ∨ noScope env = true) :
     checkRead env h target (if sroot then sref else target) orig vs missing (readSteps sroot rd)
+      (assignThenRead env sroot sref missing h target orig vs rd).1.1.heap
       (observeRead env (assignThenRead env sroot sref missing h target orig vs rd).2) = true := by
   have hr := c11_refines hy sref
   obtain ⟨hwf, hc, _, _, _, _⟩ := covered_parts hy
-  unfold checkRead assignThenRead
+  unfold checkRead checkReadRef assignThenRead
   cases href : refAssign env h target (if sroot then sref else target) orig vs missing with
   | unsupported => rfl
   | fail a =>
@@ -355,7 +370,7 @@ theorem c11_missing {env : MEnv} {h : Heap} {target : Val} {sroot : Bool} {orig 
       subst e1
       have hdrop : hasStar (orig.drop (k + 1)) = false :=
         wfSteps_noStar (wfSteps_sub (covered_parts hy).2.2.1 (fun s hs => List.mem_of_mem_drop hs))
-      obtain ⟨_, _, _, _, hn⟩ := buildTail_spec env kind' v _ _ _ _ _ _ hbt
+      obtain ⟨_, _, _, hn⟩ := buildTail_spec env kind' v _ _ _ _ _ _ hbt
       rw [hn hdrop]
       have hklt : k < orig.length := by
         have := List.getElem?_eq_some_iff.1 hok'
@@ -410,18 +425,434 @@ theorem c11_model_checks {env : MEnv} {h : Heap} {target : Val} {sroot : Bool} {
     checkC11 env h target (if sroot then sref else target) orig vs missing
       (observe env (assign env sroot sref missing h target orig vs)) = true := by
   have hr := c11_refines hy sref
-  unfold checkC11
+  unfold checkC11 checkRef
   cases href : refAssign env h target (if sroot then sref else target) orig vs missing with
   | unsupported => rw [href] at hr; exact hr.elim
   | ok h' hid n =>
     rw [href] at hr
     obtain ⟨h1, h2, h3, h4, _⟩ := hr
-    simp [observe, h1, h2, h3, h4]
+    simp [observe, h1, h2, h3, h4, maskCells]
   | fail a =>
     rw [href] at hr
     obtain ⟨⟨e, he⟩, hp, hl⟩ := hr
-    simp only [observe, he, pres_take hp hl, beq_self_eq_true, Bool.or_true, Bool.and_true]
+    simp only [observe, he, maskCells, List.foldl_nil, pres_take hp hl, beq_self_eq_true, Bool.or_true,
+      Bool.and_true]
     cases e <;> rfl
+
+/-! ### literals in `val` position: `arg_val` rebuilds exact lists / dicts / tuples / sets -/
+
+/-- The hypotheses of the theorems about a literal value (`coveredLit`, evaluated per case by the
+    driver): as `Hyps`, and `arg_val`'s recursion on the literal ends within the fuel. -/
+abbrev HypsLit (env : MEnv) (fuel : Nat) (h : Heap) (target : Val) (orig : List Step) (v : Val)
+    (missing : Missing) : Prop :=
+  coveredLit env fuel h target orig v missing = true
+
+/-- **`arg_val` leaves everything that exists alone**: whatever the literal looks like (nesting,
+    sharing, cycles, T leaves that fail) and however the evaluation ends, every cell that existed
+    before — the target and the literal itself — is exactly as it was; the evaluation only creates
+    cells and fills the cells it created; it calls no factory. -/
+theorem c11_argval_fresh (env : MEnv) (target : Val) (fuel : Nat) (h : Heap) (v : Val) :
+    let out := argEval env target fuel { heap := h } [] v
+    (∀ b, b < h.length → out.1.heap[b]? = h[b]?) ∧ h.length ≤ out.1.heap.length ∧
+      (∀ ev ∈ out.1.log, evNew h.length ev) ∧ out.1.calls = 0 := by
+  have hok := argEval_ok env target fuel { heap := h } [] v
+  exact ⟨hok.pres, hok.len, logExt_nil hok.log, hok.calls⟩
+
+/-- **One rebuilt object per distinct original** (what seeded change C11-s9 breaks): at the end of an
+    `arg_val` evaluation the memo `cache` relates pairwise distinct original lists / dicts to
+    pairwise distinct cells, all of them created during the call — a list / dict of the literal that
+    is reachable by several routes, or through a cycle, has exactly ONE rebuilt counterpart
+    (`keys`: no original occurs twice; `vals`: no counterpart is shared by two originals) — see
+    `c11_copy_iso` for what the counterparts hold … -/
+theorem c11_copy_once (env : MEnv) (target : Val) (fuel : Nat) (h : Heap) (v : Val) :
+    let out := argEval env target fuel { heap := h } [] v
+    (out.2.1.map (·.1)).Nodup ∧ (out.2.1.map (·.2)).Nodup ∧
+      ∀ p ∈ out.2.1, h.length ≤ p.2 ∧ p.2 < out.1.heap.length := by
+  have hi : MemoInv h.length ({ heap := h } : St) [] :=
+    ⟨Nat.le_refl _, fun p hp => by simp at hp, by simp, by simp⟩
+  obtain ⟨hinv, _⟩ := argEval_memo env target h.length fuel { heap := h } [] v hi
+  exact ⟨hinv.keys, hinv.vals, hinv.fresh⟩
+
+/-- … and **every** evaluation of an exact list / dict — the first, which rebuilds it, and each later
+    one, from whatever route — returns the counterpart the memo holds for it (entries are never
+    dropped: `argEval_ext`), so two occurrences of one original are one object in the stored value. -/
+theorem c11_copy_memo (env : MEnv) (target : Val) (fuel : Nat) (st : St) (m : Memo) (a : Nat)
+    (hreb : (∃ xs, st.heap[a]? = some (.list "list" xs)) ∨ (∃ es, st.heap[a]? = some (.dict "dict" es)))
+    (st' : St) (m' : Memo) (w : Val)
+    (hr : argEval env target fuel st m (.ref a) = (st', m', .ok w)) :
+    (∃ b, w = .ref b ∧ (a, b) ∈ m') ∧ ∃ ext, m' = ext ++ m := by
+  refine ⟨argEval_ref_memo env target fuel st m a hreb st' m' w hr, ?_⟩
+  have := argEval_ext env target fuel st m (.ref a)
+  rw [hr] at this
+  exact this
+
+/-- **The rebuilt value has the shape and the sharing of the literal** (the full statement behind
+    `c11_copy_once`): for a heap in which every stored reference points into the heap (`ClosedHeap`:
+    true of the heap of a program) and a literal `v` in it, if `arg_val` returns `w` with memo `M` and
+    heap `H`, then
+    * `w` is the counterpart of `v` (`Img`): `v` itself when `v` is a scalar, an object or a subclass
+      instance; the value of the path when `v` is a T-expression; the memo's cell for an exact list /
+      dict; a new tuple / set whose items are the counterparts of `v`'s items;
+    * every memo entry `(a, b)` is **closed** (`Closed`): the rebuilt cell `b` is a list whose items
+      are, position by position, the counterparts of the items of the original list `a` (a dict
+      whose entries are those of the rebuilt `(key, value)` pairs, in order);
+    * and (`c11_copy_once`) the memo is a partial injection.
+    So two routes to one original list / dict — a shared sub-container, a cycle — arrive at ONE
+    rebuilt cell, and distinct originals at distinct cells: the graph below `w` is isomorphic to the
+    graph below `v`, exact tuples / sets unfolded per occurrence. -/
+theorem c11_copy_iso (env : MEnv) (target : Val) (fuel : Nat) (h : Heap) (v : Val)
+    (hc : ClosedHeap h) (hv : inH h v) (st' : St) (m' : Memo) (w : Val)
+    (hr : argEval env target fuel { heap := h } [] v = (st', m', .ok w)) :
+    Img env target h st'.heap m' fuel v w ∧ ∀ p ∈ m', Closed env target h st'.heap m' p := by
+  have hg : Good h ({ heap := h } : St) [] :=
+    ⟨Pres.refl _, Nat.le_refl _, ⟨Nat.le_refl _, fun p hp => by simp at hp, by simp, by simp⟩⟩
+  obtain ⟨hs, hi⟩ := argEval_iso env target h hc fuel { heap := h } [] v st' m' w hg hv hr
+  exact ⟨hi, fun p hp => hs.closed p hp (by simp)⟩
+
+/-- **Refinement for a literal value**: `glom(target, Assign(path, literal, missing))` is the plain
+    nested assignment of what arg mode makes of the literal; otherwise an error with every
+    pre-existing cell preserved (also when a T leaf of the literal cannot be evaluated, or a
+    rebuilt key is unhashable). -/
+theorem c11_lit_refines {env : MEnv} {fuel : Nat} {h : Heap} {target : Val} {orig : List Step} {v : Val}
+    {missing : Missing} (hy : HypsLit env fuel h target orig v missing) (sroot : Bool) (sref : Val) :
+    Refines h target (assignLit env sroot sref missing fuel h target orig v)
+      (refAssignU env fuel h target (if sroot then sref else target) orig (.lit v) missing) := by
+  obtain ⟨hwf, hc, hs, hm, hfu⟩ := coveredLit_parts hy
+  exact assignLit_spec hwf hc sroot sref missing fuel h target orig v hs hm hfu
+
+/-- **Atomicity with a literal value**: if the assignment cannot be completed for any reason — the
+    literal's evaluation included — an error is raised and every cell that existed before the call
+    is exactly as it was (rebuilt containers and factory objects are garbage). -/
+theorem c11_lit_atomic {env : MEnv} {fuel : Nat} {h : Heap} {target : Val} {orig : List Step} {v : Val}
+    {missing : Missing} (hy : HypsLit env fuel h target orig v missing) (sroot : Bool) (sref : Val)
+    (e : MErr) (herr : (assignLit env sroot sref missing fuel h target orig v).2 = .error e) :
+    ∀ b, b < h.length → (assignLit env sroot sref missing fuel h target orig v).1.heap[b]? = h[b]? := by
+  have hr := c11_lit_refines hy sroot sref
+  cases href : refAssignU env fuel h target (if sroot then sref else target) orig (.lit v) missing with
+  | ok h' hid n => rw [href] at hr; rw [hr.1] at herr; cases herr
+  | fail a => rw [href] at hr; exact hr.2.1
+  | unsupported => rw [href] at hr; exact hr.elim
+
+/-- **Checker theorem for a literal value** — the form evaluated on the implementation's observation. -/
+theorem c11_lit_model_checks {env : MEnv} {fuel : Nat} {h : Heap} {target : Val} {orig : List Step}
+    {v : Val} {missing : Missing} (hy : HypsLit env fuel h target orig v missing) (sroot : Bool)
+    (sref : Val) :
+    checkC11U env fuel h target (if sroot then sref else target) orig (.lit v) missing
+      (observe env (assignLit env sroot sref missing fuel h target orig v)) = true := by
+  have hr := c11_lit_refines hy sroot sref
+  unfold checkC11U checkRef
+  cases href : refAssignU env fuel h target (if sroot then sref else target) orig (.lit v) missing with
+  | unsupported => rw [href] at hr; exact hr.elim
+  | ok h' hid n =>
+    rw [href] at hr
+    obtain ⟨h1, h2, h3, h4, _⟩ := hr
+    simp [observe, h1, h2, h3, h4, maskCells]
+  | fail a =>
+    rw [href] at hr
+    obtain ⟨⟨e, he⟩, hp, hl⟩ := hr
+    simp only [observe, he, maskCells, List.foldl_nil, pres_take hp hl, beq_self_eq_true, Bool.or_true,
+      Bool.and_true]
+    cases e <;> rfl
+
+/-! ### exact errors, user registrations, overlapping evaluations -/
+
+/-- **Exact outcome at the parent** (every container kind, every registered handler — the `assign`
+    table is a parameter of the environment —, negative and out-of-range list indices, tuple /
+    frozenset / str parents): when the parent path of a wildcard-free destination addresses `d`, the
+    call does exactly what the final step's assignment primitive does on `d` — Python's own
+    `d[arg] = v` for `T[..]`, `setattr` for `T.attr`, the handler registered for `type(d)` for a plain
+    segment —: its heap on success; on an exception `e` a `PathAssignError(e)` exactly when the
+    `except` clause of that branch of `_assign_op` (extracted) names `e`'s class, else `e` itself;
+    `UnregisteredTarget` when the type has no `assign` handler (registered as `False`). -/
+theorem c11_exact_outcome {env : MEnv} {h : Heap} {target : Val} {sroot : Bool} {orig : List Step}
+    {vs : ValSpec} {missing : Missing} (hy : Hyps env h target sroot orig vs missing) (sref : Val)
+    (d v : Val) (op : String) (arg : Val) (hl : orig.getLast? = some (op, arg))
+    (hm : matchesOf env h orig.dropLast 0 (if sroot then sref else target) = .ok [d])
+    (hv : refVal env h target vs = some v) :
+    assign env sroot sref missing h target orig vs =
+      match refAssignOp env h op d arg v with
+      | some (.ok w) => (({ heap := h } : St).wrote w, .ok target)
+      | some (.error e) => ({ heap := h }, .error (assignErr env op arg e))
+      | none => ({ heap := h }, .error .unregistered) := by
+  obtain ⟨hwf, hc, hs, hvw, hvu, _⟩ := covered_parts hy
+  have hlastw : C01.wfSteps [(op, arg)] = true := (wfSteps_iff orig).1 hs _ (getLast?_mem hl)
+  have hfin : finalOk op = true := finalOk_of_wfSteps hlastw
+  have hvs' : ValWF ({ heap := h } : St).heap vs := by
+    cases vs with
+    | path s => exact hvw
+    | lit v => simpa [valUnsupported, ValWF] using hvu
+    | val v => trivial
+  have hev := evalVal_spec hwf hc { heap := h } target vs hvs'
+  simp only [hv] at hev
+  have hpw : C01.wfSteps orig.dropLast = true := wfSteps_sub hs (fun s hs' => mem_of_mem_dropLast hs')
+  have hpns := wfSteps_noStar hpw
+  have hspec := fetch_spec hwf hc h orig.dropLast (wfSteps_wfStar hpw) (.inl hpns) 0
+    (if sroot then sref else target)
+  rw [hm] at hspec
+  obtain ⟨nest, hf, hu, hlv⟩ := hspec
+  rw [stars_zero hpns] at hu
+  obtain ⟨d', rfl⟩ := uniform0_leaf hu
+  simp only [Nest.leaves] at hlv
+  injection hlv with hlv _
+  subst hlv
+  unfold assign
+  rw [assignAux_fetch_ok hl hfin hev hf]
+  simp only [stars_zero hpns, applyForEach, beq_self_eq_true, if_true]
+  rw [assignOp_eq hwf hfin]
+  cases refAssignOp env h op d' arg v with
+  | none => rfl
+  | some r => cases r <;> rfl
+
+/-- **List indices**: assigning at index `i` of a list of length `n` (`T[...]` addressing) replaces
+    exactly position `i` (for `0 ≤ i < n`) or `n + i` (for `-n ≤ i < 0`) and raises IndexError for
+    every other index — never extending the list. -/
+theorem c11_list_index (env : MEnv) (h : Heap) (a : Nat) (c : String) (xs : List Val) (i : Int) (v : Val)
+    (ha : h[a]? = some (.list c xs)) (hg : env.flag c "raise_setitem" = false) :
+    pySetitem env h (.ref a) (.int i) v =
+      if 0 ≤ i ∧ i < xs.length then .ok { heap := h.set a (.list c (xs.set i.toNat v)), cell := some a }
+      else if i < 0 ∧ 0 ≤ i + xs.length then
+        .ok { heap := h.set a (.list c (xs.set (i + xs.length).toNat v)), cell := some a }
+      else .error (exc "IndexError") := by
+  simp only [pySetitem, ha, hg, Bool.false_eq_true, if_false, asIndex, pyIdx]
+  by_cases h0 : i < 0
+  · have hn : ¬ (0 ≤ i ∧ i < (xs.length : Int)) := by omega
+    simp only [h0, if_true, hn, if_false, true_and]
+    by_cases h1 : i + (xs.length : Int) < 0
+    · have : ¬ (0 ≤ i + (xs.length : Int)) := by omega
+      simp [h1, this]
+    · have h2 : 0 ≤ i + (xs.length : Int) := by omega
+      have h3 : (i + (xs.length : Int)).toNat < xs.length := by omega
+      simp [h1, h2, h3]
+  · have hn : ¬ (i < 0 ∧ 0 ≤ i + (xs.length : Int)) := by omega
+    simp only [h0, if_false, hn]
+    have h1 : ¬ i < 0 := h0
+    by_cases h2 : i.toNat < xs.length
+    · have : 0 ≤ i ∧ i < (xs.length : Int) := by omega
+      simp [h1, h2, this]
+    · have : ¬ (0 ≤ i ∧ i < (xs.length : Int)) := by omega
+      simp [h1, h2, this]
+
+/-- **Facts obligation with user registrations**: the branch tables do not depend on the registry;
+    registrations of user classes (anything but `object` and the two duck types) in front of the
+    default `assign` table keep the environment well-formed — the theorems hold for every such
+    registry (the handler table is a parameter). -/
+theorem c11_facts_wf_ureg (uc : ClassTable) (fl : List (String × List String)) (ur : UReg)
+    (hu : ur.assign.all (fun p => p.1 != "object" && p.1 != "_AbstractIterable" && p.1 != "_ObjStyleKeys") = true) :
+    WF (genEnv uc fl ur) = true := by
+  have hfind : ∀ (name : String), (name = "object" ∨ name = "_AbstractIterable" ∨ name = "_ObjStyleKeys") →
+      (ur.assign ++ Generated.defaultReg_assign).find? (·.1 == name) =
+        Generated.defaultReg_assign.find? (·.1 == name) := by
+    intro name hn
+    rw [List.find?_append]
+    have : ur.assign.find? (·.1 == name) = none := by
+      rw [List.find?_eq_none]
+      intro p hp
+      have := List.all_eq_true.1 hu p hp
+      simp only [Bool.and_eq_true, bne_iff_ne, ne_eq] at this
+      rcases hn with rfl | rfl | rfl <;> simp [this]
+    rw [this]; rfl
+  have hv : virtualLikeObject (ur.assign ++ Generated.defaultReg_assign) =
+      virtualLikeObject Generated.defaultReg_assign := by
+    simp only [virtualLikeObject, hfind "object" (.inl rfl), List.all_cons, List.all_nil, Bool.and_true,
+      hfind "_AbstractIterable" (.inr (.inl rfl)), hfind "_ObjStyleKeys" (.inr (.inr rfl))]
+  have h0 := c11_facts_wf [] []
+  have hsplit : WF (genEnv uc fl ur) =
+      (virtualLikeObject (ur.assign ++ Generated.defaultReg_assign) &&
+        (C01.WF (genEnv [] []).t && C01.dispatchOf (genEnv [] []).t "x" == some ("star", []) &&
+         C01.dispatchOf (genEnv [] []).t "X" == some ("starstar", []) &&
+         assignKind (genEnv [] []) "[" "setitem" && assignKind (genEnv [] []) "." "setattr" &&
+         assignKind (genEnv [] []) "P" "handler" &&
+         (genEnv [] []).t.excTable.isSub "PathAssignError" "GlomError")) := by
+    simp only [WF, Bool.and_assoc]; rfl
+  rw [hsplit, hv]
+  simp only [WF, Bool.and_assoc] at h0
+  exact h0
+
+/-- **Put-put** (`_partial`: for destinations whose parent exists, under the hypotheses put-get
+    needs — the parent path does not pass through the written object, immediate path arguments):
+    assigning twice through the same path is assigning the last value once — the second call
+    succeeds, returns the target, and leaves exactly the heap (and hidden flag) of
+    `assign(target, path, v2)` on the original target.  For every path length (the walk of the
+    parent path after the first write is the walk before it, `matchesOf_congr_visits`, an
+    induction over the path) and every container kind / registered handler. -/
+theorem c11_put_put_partial {env : MEnv} {h : Heap} {target : Val} {sroot : Bool} {orig : List Step}
+    {missing : Missing} {v1 : Val} (v2 : Val)
+    (hy : Hyps env h target sroot orig (.val v1) missing) (sref : Val)
+    (has : argsScalar orig = true) (d : Val)
+    (hm : matchesOf env h orig.dropLast 0 (if sroot then sref else target) = .ok [d])
+    (hnv : d ∉ visits env h orig.dropLast (if sroot then sref else target)) (r : Val)
+    (hok : (assign env sroot sref missing h target orig (.val v1)).2 = .ok r) :
+    let h1 := (assign env sroot sref missing h target orig (.val v1)).1.heap
+    (assign env sroot sref missing h1 target orig (.val v2)).2 = .ok target ∧
+    (assign env sroot sref missing h1 target orig (.val v2)).1.heap =
+      (assign env sroot sref missing h target orig (.val v2)).1.heap ∧
+    (assign env sroot sref missing h1 target orig (.val v2)).1.hidden =
+      (assign env sroot sref missing h target orig (.val v2)).1.hidden := by
+  obtain ⟨hwf, hc, hs, _, _, hmo⟩ := covered_parts hy
+  have hcov : ∀ (hh : Heap) (v : Val), Hyps env hh target sroot orig (.val v) missing := by
+    intro hh v
+    simp only [Hyps, covered, hwf, hc, hs, hmo, valWf, valUnsupported, Bool.and_self, Bool.not_false]
+  cases hl : orig.getLast? with
+  | none =>
+    have : orig = [] := by simpa using hl
+    subst this
+    simp [assign, assignAux] at hok
+  | some last =>
+    obtain ⟨op, arg⟩ := last
+    have e1 := c11_exact_outcome hy sref d v1 op arg hl hm rfl
+    have hargk : ∀ a, arg ≠ .ref a := argsScalar_sub has (op, arg) (getLast?_mem hl)
+    cases hr1 : refAssignOp env h op d arg v1 with
+    | none => rw [hr1] at e1; rw [e1] at hok; cases hok
+    | some r1 =>
+      cases r1 with
+      | error e => rw [hr1] at e1; rw [e1] at hok; cases hok
+      | ok w1 =>
+        rw [hr1] at e1
+        obtain ⟨w2, w2', hr2, hr2', hse⟩ := refAssignOp_twice v2 hargk hr1
+        have hh1 : (assign env sroot sref missing h target orig (.val v1)).1.heap = w1.heap := by
+          rw [e1]; rfl
+        simp only [hh1]
+        -- the parent path reads the same cells after the first write
+        have hpw : C01.wfSteps orig.dropLast = true := wfSteps_sub hs (fun s hs' => mem_of_mem_dropLast hs')
+        have hpns := wfSteps_noStar hpw
+        have hpas : argsScalar orig.dropLast = true :=
+          argsScalar_of (fun t ht => argsScalar_sub has t (mem_of_mem_dropLast ht))
+        have hfr := refAssignOp_frame hr1
+        have hpre : matchesOf env w1.heap orig.dropLast 0 (if sroot then sref else target) = .ok [d] := by
+          rw [matchesOf_congr_visits orig.dropLast hpns hpas 0 _ ?_, hm]
+          intro c hc' a hca
+          subst hca
+          exact hfr.2 a (fun e => hnv (by rw [e]; exact hc'))
+        have ea := c11_exact_outcome (hcov w1.heap v2) sref d v2 op arg hl hpre rfl
+        have eb := c11_exact_outcome (hcov h v2) sref d v2 op arg hl hm rfl
+        rw [hr2'] at ea
+        rw [hr2] at eb
+        rw [ea, eb]
+        exact ⟨rfl, by simp [St.wrote, hse.1], by simp [St.wrote, hse.2]⟩
+
+/-- **A factory without side effects**: the re-entrant model is the plain one. -/
+theorem c11_reenter_none (env : MEnv) (sroot : Bool) (sref : Val) (kind : String) (fuel : Nat) (st : St)
+    (target : Val) (orig : List Step) (vs : ValSpec) :
+    assignAuxR env id sroot sref kind fuel st target orig vs =
+      assignAux env sroot sref (.factory kind) fuel st target orig vs :=
+  assignAuxR_id env sroot sref kind fuel st target orig vs
+
+/-- **Overlapping evaluations of one spec object** (what seeded change C11-s8 breaks): when the
+    `missing` factory, at the first call this evaluation makes of it, evaluates the SAME Assign
+    object on another record (leaving state `st'`), this evaluation goes on exactly as if it had
+    been started alone from `st'` — same value `val` (the one IT evaluated), same break point —,
+    provided the nested evaluation did not change what this one had read before calling the
+    factory (two records that share nothing).  Nothing of an evaluation is kept on the spec
+    object (`c11_facts_shape`: no method but `__init__` stores into `self`). -/
+theorem c11_reenter_first (env : MEnv) (inner : St → St × Except MErr Val) (sroot : Bool) (sref : Val)
+    (kind : String) (fuel : Nat) (st : St) (target : Val) (orig : List Step) (vs : ValSpec)
+    (op : String) (arg val : Val) (k : Nat) (e : PyExc)
+    (hl : orig.getLast? = some (op, arg)) (hfin : finalOk op = true)
+    (hmono : st.calls ≤ (inner st).1.calls)
+    (hv : evalVal env st target vs = (st, .ok val))
+    (hv' : evalVal env (inner st).1 target vs = ((inner st).1, .ok val))
+    (hf : fetch env st.heap orig.dropLast 0 (if sroot then sref else target) = .error (.pae k e))
+    (hf' : fetch env (inner st).1.heap orig.dropLast 0 (if sroot then sref else target) = .error (.pae k e)) :
+    assignAuxR env (reenterHook st.calls inner) sroot sref kind (fuel + 1) st target orig vs =
+      assignAux env sroot sref (.factory kind) (fuel + 1) (inner st).1 target orig vs :=
+  assignAuxR_first env inner sroot sref kind fuel st target orig vs op arg val k e hl hfin hmono hv hv' hf hf'
+
+/-- **Overlapping evaluations on records that share nothing** (`c11_reenter_first` with its hypotheses
+    discharged from the heap BEFORE the calls): one Assign object; this evaluation (on `target`) needs
+    the factory (its parent walk stops at segment `k`); at its first call the factory evaluates the
+    same spec object on `target2`.  If the object the nested evaluation writes (`d2`: the parent it
+    reaches on `target2`, or the object where its own walk stops) is not among the objects this
+    evaluation's value path and parent walk visit, and those are objects of the heap (`hin`), then
+    this evaluation is exactly the evaluation carried out alone after the nested one: it assigns
+    the value IT evaluated.  (`vs`: a path / `T` value or an evaluated value; sequential semantics
+    of the two calls then follow from `c11_refines` for each.) -/
+theorem c11_reenter_disjoint {env : MEnv} {h : Heap} {target target2 : Val} {orig : List Step}
+    {vs : ValSpec} {kind : String}
+    (hy : Hyps env h target false orig vs (.factory kind))
+    (hy2 : Hyps env h target2 false orig vs (.factory kind))
+    (hnl : ∀ v, vs ≠ .lit v) (hasv : ∀ s, vs = .path s → argsScalar s = true)
+    (sref : Val) (op : String) (arg : Val) (hl : orig.getLast? = some (op, arg))
+    (val : Val) (hval : refVal env h target vs = some val)
+    (k : Nat) (e : PyExc) (stop : Val) (hstop : matchesOf env h orig.dropLast 0 target = .fail k e stop)
+    (hin : ∀ c, (c ∈ visits env h orig.dropLast target ∨ ∃ s, vs = .path s ∧ c ∈ visits env h s target) →
+      ∀ a, c = .ref a → a < h.length)
+    (hdis : ∀ d2, (matchesOf env h orig.dropLast 0 target2 = .ok [d2] ∨
+        ∃ k' e', matchesOf env h orig.dropLast 0 target2 = .fail k' e' d2) →
+      d2 ∉ visits env h orig.dropLast target ∧ ∀ s, vs = .path s → d2 ∉ visits env h s target) :
+    let inner := fun st => assignAux env false sref (.factory kind) (orig.length + 1) st target2 orig vs
+    assignAuxR env (reenterHook 0 inner) false sref kind (orig.length + 1) { heap := h } target orig vs =
+      assignAux env false sref (.factory kind) (orig.length + 1) (inner { heap := h }).1 target orig vs := by
+  intro inner
+  obtain ⟨hwf, hc, hs, hvw, hvu, hmo⟩ := covered_parts hy
+  have has : argsScalar orig = true := by simpa [missingOK] using (by simpa [missingOK] using hmo : argsScalar orig = true ∧ freshNotScope env = true).1
+  have hlastw : C01.wfSteps [(op, arg)] = true := (wfSteps_iff orig).1 hs _ (getLast?_mem hl)
+  have hfin : finalOk op = true := finalOk_of_wfSteps hlastw
+  have hpw : C01.wfSteps orig.dropLast = true := wfSteps_sub hs (fun s hs' => mem_of_mem_dropLast hs')
+  have hpas : argsScalar orig.dropLast = true :=
+    argsScalar_of (fun t ht => argsScalar_sub has t (mem_of_mem_dropLast ht))
+  -- the nested evaluation is an ordinary `assign` on the other record
+  have hinner : inner { heap := h } = assign env false sref (.factory kind) h target2 orig vs := rfl
+  -- it leaves every cell this evaluation reads as it was
+  have hcells : ∀ c, (c ∈ visits env h orig.dropLast target ∨ ∃ s, vs = .path s ∧ c ∈ visits env h s target) →
+      ∀ a, c = .ref a → (inner { heap := h }).1.heap[a]? = h[a]? := by
+    intro c hcv a hca
+    have halt := hin c hcv a hca
+    rw [hinner]
+    cases hres : (assign env false sref (.factory kind) h target2 orig vs).2 with
+    | error e' => exact c11_atomic hy2 sref e' hres a halt
+    | ok r =>
+      obtain ⟨d, hd, hfr⟩ := c11_frame hy2 sref r hres
+      simp only [Bool.false_eq_true, if_false] at hd
+      have hnd := hdis d hd
+      apply hfr a halt
+      intro hde
+      subst hca
+      rcases hcv with hcv | ⟨s, hs', hcv⟩
+      · exact hnd.1 (by rw [hde]; exact hcv)
+      · exact hnd.2 s hs' (by rw [hde]; exact hcv)
+  -- what this evaluation read before calling the factory
+  have hvs' : ValWF ({ heap := h } : St).heap vs := by
+    cases vs with
+    | path s => exact hvw
+    | lit v => exact absurd rfl (hnl v)
+    | val v => trivial
+  have hev := evalVal_spec hwf hc { heap := h } target vs hvs'
+  simp only [hval] at hev
+  have hspec := fetch_spec hwf hc h orig.dropLast (wfSteps_wfStar hpw) (.inl (wfSteps_noStar hpw)) 0 target
+  rw [hstop] at hspec
+  simp only at hspec
+  have hf' : fetch env (inner { heap := h }).1.heap orig.dropLast 0 target = .error (.pae k e) := by
+    rw [fetch_congr_visits hwf hc orig.dropLast hpw hpas target (fun c hc' => hcells c (.inl hc')), hspec]
+  have hv' : evalVal env (inner { heap := h }).1 target vs = ((inner { heap := h }).1, .ok val) := by
+    have h2 := evalVal_congr_visits hwf hc (st := { heap := h }) (st' := (inner { heap := h }).1) target vs hvw
+      (fun v hv => absurd hv (hnl v)) hasv (fun s hs' c hc' => hcells c (.inr ⟨s, hs', hc'⟩))
+    rw [hev] at h2
+    have h1 := evalVal_fst env (inner { heap := h }).1 target vs
+    exact Prod.ext h1 h2
+  have hmono : ({ heap := h } : St).calls ≤ (inner { heap := h }).1.calls := Nat.zero_le _
+  have := c11_reenter_first env inner false sref kind orig.length { heap := h } target orig vs op arg val k e
+    hl hfin hmono hev hv' (by simpa using hspec) (by simpa using hf')
+  exact this
+
+/-- … and once the factory has been called more often than the call at which it re-enters, the
+    rest of the evaluation (every nested tail Assign included) is the plain one. -/
+theorem c11_reenter_spent (env : MEnv) (at_ : Nat) (inner : St → St × Except MErr Val) (sroot : Bool)
+    (sref : Val) (kind : String) (fuel : Nat) (st : St) (target : Val) (orig : List Step) (vs : ValSpec)
+    (h : at_ < st.calls) :
+    assignAuxR env (reenterHook at_ inner) sroot sref kind fuel st target orig vs =
+      assignAux env sroot sref (.factory kind) fuel st target orig vs :=
+  assignAuxR_spent env at_ inner sroot sref kind fuel st target orig vs h
+
+/-- **An evaluation from any state is the evaluation from the bare heap** (sequential re-use of a
+    spec object, the evaluation nested in a factory, the evaluation after `arg_val`): the model
+    reads nothing of its state but the heap; factory calls, events and flags are added to what
+    was there. -/
+theorem c11_from_any_state (env : MEnv) (sroot : Bool) (sref : Val) (missing : Missing) (fuel : Nat)
+    (st : St) (target : Val) (orig : List Step) (vs : ValSpec) :
+    assignAux env sroot sref missing fuel st target orig vs =
+      (St.shift st (assignAux env sroot sref missing fuel st.bare target orig vs).1,
+       (assignAux env sroot sref missing fuel st.bare target orig vs).2) :=
+  assignAux_from env sroot sref missing fuel st target orig vs
 
 /-! ### non-vacuity: concrete inputs meet every hypothesis; forced hypotheses have counter-examples -/
 
@@ -545,5 +976,139 @@ theorem c11_dangling_key_counterexample :
     refAssign exEnv h (.ref 0) (.ref 0) path (.lit (.int 5)) (.factory "dict") =
       .ok [.dict "dict" [(.ref 1, .ref 0), (.str "n", .ref 1)], .dict "dict" [(.str "z", .int 5)]]
         false 1 := by decide
+
+/-- put-put on the concrete target: `assign(t, 'a.1.b', 5)` then `assign(t, 'a.1.b', 6)` = the latter alone -/
+example :
+    let h1 := (assign exEnv false .none .none exHeap (.ref 0) exPath (.val (.int 5))).1.heap
+    (assign exEnv false .none .none h1 (.ref 0) exPath (.val (.int 6))).1.heap =
+      (assign exEnv false .none .none exHeap (.ref 0) exPath (.val (.int 6))).1.heap := by decide
+
+/-- a factory that returns a non-container: `assign({}, 'n.z', 5, missing=int)` cannot attach anything to
+    `0` (the registered handler of `int` is `object`'s `setattr`: AttributeError → PathAssignError); with a
+    wildcard, `assign(t, 'n.*.z', 5, missing=str)` there is nothing to assign and `''` itself is stored -/
+example :
+    (assign exEnv false .none (.factory "int") exHeap (.ref 0) [("P", .str "n"), ("P", .str "z")]
+      (.lit (.int 5))).2 = .error (.passign (exc "AttributeError") (.str "z")) ∧
+    (assign exEnv false .none (.factory "str") exHeap (.ref 0) [("P", .str "n"), ("x", .none), ("P", .str "z")]
+      (.lit (.int 5))).1.heap[0]? =
+      some (.dict "dict" [(.str "a", .ref 1), (.str "t", .ref 3), (.str "n", .str "")]) := by decide
+
+/-! overlapping evaluations of one spec object -/
+
+/-- two records `A = {'src': 1}`, `B = {'src': 2}` and one spec `Assign('out.value', T['src'], missing=dict)`
+    whose factory, at its first call, evaluates the spec on `B`: each record gets ITS OWN value -/
+private def rHeap : Heap := [.dict "dict" [(.str "src", .int 1)], .dict "dict" [(.str "src", .int 2)]]
+private def rPath : List Step := [("P", .str "out"), ("P", .str "value")]
+private def rVal : ValSpec := .path [("[", .str "src")]
+
+example :
+    let inner := fun st => assignAux exEnv false .none (.factory "dict") 3 st (.ref 1) rPath rVal
+    let out := assignAuxR exEnv (reenterHook 0 inner) false .none "dict" 3 { heap := rHeap } (.ref 0) rPath rVal
+    out.2 = .ok (.ref 0) ∧ out.1.calls = 2 ∧
+    out.1.heap = [.dict "dict" [(.str "src", .int 1), (.str "out", .ref 3)],
+                  .dict "dict" [(.str "src", .int 2), (.str "out", .ref 2)],
+                  .dict "dict" [(.str "value", .int 2)], .dict "dict" [(.str "value", .int 1)]] := by decide
+
+/-- the hypotheses of `c11_reenter_disjoint` hold for it -/
+example :
+    Hyps exEnv rHeap (.ref 0) false rPath rVal (.factory "dict") ∧
+    Hyps exEnv rHeap (.ref 1) false rPath rVal (.factory "dict") ∧
+    refVal exEnv rHeap (.ref 0) rVal = some (.int 1) ∧
+    matchesOf exEnv rHeap rPath.dropLast 0 (.ref 0) = .fail 0 (exc "KeyError") (.ref 0) ∧
+    matchesOf exEnv rHeap rPath.dropLast 0 (.ref 1) = .fail 0 (exc "KeyError") (.ref 1) ∧
+    visits exEnv rHeap rPath.dropLast (.ref 0) = [.ref 0] ∧
+    visits exEnv rHeap [("[", .str "src")] (.ref 0) = [.ref 0] := by decide
+
+/-! literal containers in `val` position -/
+
+private def lEnv : MEnv := genEnv [("TLeaf", ["TLeaf", "object"])] [("TLeaf", ["tleaf"])]
+
+/-- `t = {'cfg': {}, 'src': 7}`; the literal `v = [q, q, v, T['src']]` with `q = []` mentioned twice
+    and `v` containing itself -/
+private def lHeap : Heap :=
+  [ .dict "dict" [(.str "cfg", .ref 1), (.str "src", .int 7)],   -- 0: the target
+    .dict "dict" [],                                              -- 1: t['cfg']
+    .list "list" [.ref 3, .ref 3, .ref 2, .ref 4],               -- 2: the literal
+    .list "list" [],                                              -- 3: q
+    .inst "TLeaf" [("[", .str "src")] ]                           -- 4: T['src']
+
+private def lPath : List Step := [("P", .str "cfg"), ("P", .str "queues")]
+
+/-- the hypotheses are satisfiable for a literal with sharing, a cycle and a T leaf -/
+example : HypsLit lEnv 32 lHeap (.ref 0) lPath (.ref 2) .none := by decide
+/-- … and with a `missing` factory -/
+example : HypsLit lEnv 32 lHeap (.ref 0) [("P", .str "n"), ("P", .str "z")] (.ref 2) (.factory "dict") := by
+  decide
+
+/-- `assign(t, 'cfg.queues', v)`: the stored value is a NEW list whose first two entries are ONE new
+    list (the sharing of `q`), whose third entry is the new list itself (the cycle), whose fourth is
+    `t['src']`; the literal is untouched -/
+example :
+    let out := assignLit lEnv false .none .none 32 lHeap (.ref 0) lPath (.ref 2)
+    out.2 = .ok (.ref 0) ∧
+    out.1.heap[1]? = some (.dict "dict" [(.str "queues", .ref 5)]) ∧
+    out.1.heap[5]? = some (.list "list" [.ref 6, .ref 6, .ref 5, .int 7]) ∧
+    out.1.heap[6]? = some (.list "list" []) ∧ out.1.heap.length = 7 ∧
+    out.1.heap.take 5 = (lHeap.set 1 (.dict "dict" [(.str "queues", .ref 5)])) := by decide
+
+/-- the memo at the end of that evaluation: two originals, two counterparts -/
+example : (argEval lEnv (.ref 0) 32 { heap := lHeap } [] (.ref 2)).2.1 = [(3, 6), (2, 5)] := by decide
+
+/-- a T leaf that cannot be evaluated: PathAccessError, nothing changed -/
+example :
+    let h := lHeap.set 4 (.inst "TLeaf" [("[", .str "zz")])
+    let out := assignLit lEnv false .none .none 32 h (.ref 0) lPath (.ref 2)
+    out.2 = .error (.pae 0 (exc "KeyError")) ∧ out.1.heap.take 5 = h := by decide
+
+/-- tuples are rebuilt per occurrence (no memo): `(x, x)` with `x = (1,)` becomes two new tuples -/
+example :
+    let h : Heap := [.dict "dict" [], .tuple "tuple" [.ref 2, .ref 2], .tuple "tuple" [.int 1]]
+    let out := assignLit lEnv false .none .none 32 h (.ref 0) [("P", .str "k")] (.ref 1)
+    out.2 = .ok (.ref 0) ∧ out.1.heap[5]? = some (.tuple "tuple" [.ref 3, .ref 4]) ∧
+    out.1.heap[0]? = some (.dict "dict" [(.str "k", .ref 5)]) := by decide
+
+/-- a subclass instance is stored as it is (and keeps pointing into the literal) -/
+example :
+    let h : Heap := [.dict "dict" [], .list "ListSub" [.ref 2], .list "list" []]
+    let out := assignLit lEnv false .none .none 32 h (.ref 0) [("P", .str "k")] (.ref 1)
+    out.2 = .ok (.ref 0) ∧ out.1.heap = h.set 0 (.dict "dict" [(.str "k", .ref 1)]) := by decide
+
+/-- the hypotheses of `c11_copy_iso` hold for the literal of the examples (a shared list, a cycle, a T leaf) -/
+example : ClosedHeap lHeap ∧ inH lHeap (.ref 2) := by
+  constructor
+  · intro a o ha x hx
+    have hlt : a < 5 := (List.getElem?_eq_some_iff.1 ha).1
+    match a, hlt with
+    | 0, _ => simp [lHeap] at ha; subst ha; simp [cellVals] at hx; rcases hx with rfl | rfl | rfl | rfl <;> simp [inH, lHeap]
+    | 1, _ => simp [lHeap] at ha; subst ha; simp [cellVals] at hx
+    | 2, _ => simp [lHeap] at ha; subst ha; simp [cellVals] at hx; rcases hx with rfl | rfl | rfl <;> simp [inH, lHeap]
+    | 3, _ => simp [lHeap] at ha; subst ha; simp [cellVals] at hx
+    | 4, _ => simp [lHeap] at ha; subst ha; simp [cellVals] at hx; subst hx; simp [inH]
+  · simp [inH, lHeap]
+
+/-- **Counter-example for the fuel hypothesis** (forced; not reachable in Python): a "tuple that contains
+    itself" — a heap no Python program can build — has no memo to stop the recursion; the model
+    answers "unmodelled" for every fuel, the prescription is `unsupported` -/
+theorem c11_tuple_cycle_counterexample (fuel : Nat) :
+    let h : Heap := [.dict "dict" [], .tuple "tuple" [.ref 1]]
+    (argEval lEnv (.ref 0) fuel { heap := h } [] (.ref 1)).2.2 = .error .unmodelled := by
+  intro h
+  have key : ∀ (n : Nat) (st : St) (m : Memo), st.heap[1]? = some (.tuple "tuple" [.ref 1]) →
+      (argEval lEnv (.ref 0) n st m (.ref 1)).2.2 = .error .unmodelled := by
+    intro n
+    induction n with
+    | zero => intro st m _; rfl
+    | succ k ih =>
+      intro st m hst
+      have := ih st m hst
+      simp only [argEval, hst, argList]
+      cases hr : argEval lEnv (.ref 0) k st m (.ref 1) with
+      | mk st1 r1 =>
+        obtain ⟨m1, r⟩ := r1
+        rw [hr] at this
+        simp only at this
+        subst this
+        rfl
+  exact key fuel { heap := h } [] rfl
 
 end Glom.Props.C11
